@@ -78,6 +78,27 @@ def _rfc4226(digits):
     return ensures
 
 
+def _gen_replay(digits):
+    """executable specification of _generate (RFC 4226 over stdlib hmac), run on SEVERAL objects that share one key but differ in
+    algorithm, in sequence: the code of each object depends on its own (key, algorithm) only"""
+    ref = """
+import hashlib, hmac, struct
+from passlib.totp import TOTP
+def ref(key, alg, counter, digits):
+    d = hmac.new(key, struct.pack('>Q', counter), getattr(hashlib, alg)).digest()
+    o = d[-1] & 15
+    return str((struct.unpack('>I', d[o:o + 4])[0] & 0x7fffffff) % 10 ** digits).rjust(digits, '0')
+def both(counter, digits):
+    out = []
+    for key in (b'0123456789abcdefghij', b'another key of 22 byte'):
+        for alg in ('sha1', 'sha256', 'sha512', 'sha1'):
+            out.append((TOTP(key=key, format='raw', alg=alg, digits=digits)._generate(counter), ref(key, alg, counter, digits)))
+    return out
+"""
+    return py_replay(ref, f"r = both(V['counter'], {digits})", "exc is None and all(a == b for a, b in r)", {"counter": 1},
+                     search=lambda v: [dict(v, counter=c) for c in (0, 1, 59, 2**32, 2**63)])
+
+
 CONTRACTS = []
 for _d in range(6, 11):
     CONTRACTS.append(Contract(
@@ -90,7 +111,44 @@ for _d in range(6, 11):
             ("token has exactly `digits` characters", f"len(result) == {_d}"),
         ],
         descr=f"all counters < 2^64, every digest of 20..64 bytes, digits={_d}",
+        replay=_gen_replay(_d),
     ))
+
+# ---- first code of an object (nothing cached yet): the keyed HMAC is compiled from THIS object's algorithm and key ----
+def _setup_cold(it, args):
+    _setup(it, args)
+    self = args["self"]
+    warm = self.fields["_keyed_hmac"]
+    self.fields["_keyed_hmac"] = None
+    self.fields["alg"] = SStr(z3.String("self.alg"), "str")
+    self.fields["key"] = SStr(z3.String("self.key"), "bytes")
+
+    def compile_(i, a, k):
+        i.run.ghost["compiled_with"] = (i.to_z3(a[0]), i.to_z3(a[1]))
+        i.run.ghost["compiled"] = i.run.ghost.get("compiled", 0) + 1
+        return warm
+    it.genv.vars["compile_hmac"] = SStub(compile_, "compile_hmac", trusted="C11: HMAC keyed with (digest name, key)")
+    return None
+
+
+from pyvc.values import SStr as _SStr0  # noqa: E402
+SStr = _SStr0
+CONTRACTS.append(Contract(
+    "_generate[digits=6, nothing cached]", f"{T}::TOTP._generate",
+    params={"self": Obj(cls=(T, "TOTP"), fields={"digits": Const(6)}), "counter": Int(0, 2**64 - 1)},
+    setup=_setup_cold,
+    globals={"_pack_uint64": SStub(_pack64, "_pack_uint64", trusted="struct >Q"), "_unpack_uint32": SStub(_unpack32, "_unpack_uint32", trusted="struct >I")},
+    ensures=[
+        ("the HMAC is compiled once, from this object's own algorithm and key, and kept on this object",
+         lambda it, env: z3.And(z3.BoolVal(it.run.ghost.get("compiled") == 1),
+                                it.run.ghost["compiled_with"][0] == z3.String("self.alg") if it.run.ghost.get("compiled") == 1 else z3.BoolVal(False),
+                                it.run.ghost["compiled_with"][1] == z3.String("self.key") if it.run.ghost.get("compiled") == 1 else z3.BoolVal(False),
+                                z3.BoolVal(it.resolve(env.lookup("self")).fields.get("_keyed_hmac") is not None))),
+        ("token == RFC 4226 DT(HMAC(K, counter)) mod 10^6, zero padded", _rfc4226(6)),
+    ],
+    replay=_gen_replay(6),
+    descr="all counters < 2^64; nothing cached on the object",
+))
 
 SELF = Obj(cls=(T, "TOTP"), fields={"period": Int(lo=1), "digits": Int(6, 10)}, methods={"_generate": UF(["int"], "str", requires=lambda it, c: c >= 0, name="generate")})
 
